@@ -195,6 +195,27 @@ def check_tx(res, N, exons, strand, cds, pk, f0=0, after_seq=False, scale=False)
                 res.trans()
                 if o[0] != "ok" or o[1] != q:
                     res.deviation("roundtrip", dict(op="cds->tx->seq->cds", **c), o[1], q, sig="path")
+    # ---- the same questions in chunk-relative coordinates (chunk position q <-> chromosome position a + q), asked on the
+    # same object right after the chromosome-level ones, with the same integers -----------------------------------------
+    if pk == "chunk":
+        a0 = min(s_ for s_, e_ in exons)
+        for q in range(-1, N - a0 + 1):
+            c = dict(q=q, **case0)
+            p = a0 + q
+            in_tx = q >= 0 and p in Ptx
+            expect_pos(res, "chunk_relative_pos_to_transcript", dict(op="chunk_relative_pos_to_transcript", **c), lib.outcome(tx.chunk_relative_pos_to_transcript, q), Ptx.index(p) if in_tx else None, "k2t")
+            if cds:
+                in_cds = q >= 0 and p in Pcds
+                expect_pos(res, "chunk_relative_pos_to_cds", dict(op="chunk_relative_pos_to_cds", **c), lib.outcome(tx.chunk_relative_pos_to_cds, q), Pcds.index(p) if in_cds else None, "k2c")
+            # and the chromosome-level question once more, after the chunk-level one
+            expect_pos(res, "sequence_pos_to_transcript", dict(op="sequence_pos_to_transcript", p=q, **case0), lib.outcome(tx.sequence_pos_to_transcript, q), Ptx.index(q) if q in Ptx else None, "s2t-after-chunk")
+        for r in range(-1, ln + 1):
+            ok = 0 <= r < ln
+            expect_pos(res, "transcript_pos_to_chunk_relative", dict(op="transcript_pos_to_chunk_relative", r=r, **case0), lib.outcome(tx.transcript_pos_to_chunk_relative, r), Ptx[r] - a0 if ok else None, "t2k")
+        if cds:
+            for q in range(-1, len(Pcds) + 1):
+                ok = 0 <= q < len(Pcds)
+                expect_pos(res, "cds_pos_to_chunk_relative", dict(op="cds_pos_to_chunk_relative", q=q, **case0), lib.outcome(tx.cds_pos_to_chunk_relative, q), Pcds[q] - a0 if ok else None, "c2k")
     # ---- interval conversions ------------------------------------------------------------------------------------
     # (scale family: interval ends at exon / CDS boundaries of the transcript, and one base to either side of them)
     tpts = range(0, ln + 1)
